@@ -153,10 +153,66 @@ pub fn run_history(h: &History) -> Result<(), String> {
     res
 }
 
+fn fnv(s: &str) -> u64 {
+    s.bytes().fold(0xcbf29ce484222325u64, |a, b| (a ^ b as u64).wrapping_mul(0x100000001b3))
+}
+
+/// child process: expands the sequence given on stdin in order, prints one hash per expansion
+pub fn child_main() -> i32 {
+    let mut text = String::new();
+    use std::io::Read;
+    let _ = std::io::stdin().read_to_string(&mut text);
+    let v: serde_json::Value = match serde_json::from_str(&text) {
+        Ok(v) => v,
+        Err(_) => return 2,
+    };
+    let pool: Vec<String> = v["pool"].as_array().map(|a| a.iter().map(|s| s.as_str().unwrap_or("").to_string()).collect()).unwrap_or_default();
+    let seq: Vec<(usize, usize)> = v["seq"].as_array().map(|a| a.iter().map(|p| (p[0].as_u64().unwrap_or(0) as usize, p[1].as_u64().unwrap_or(0) as usize)).collect()).unwrap_or_default();
+    let hashes: Vec<String> = seq.iter().map(|(i, c)| format!("{:x}", fnv(&expand_string(&pool[*i], *c)))).collect();
+    println!("{}", json!({"hashes": hashes}));
+    0
+}
+
+fn run_child(pool: &[String], seq: &[(usize, usize)]) -> Option<Vec<String>> {
+    use std::io::Write;
+    use std::process::{Command, Stdio};
+    let exe = std::env::current_exe().ok()?;
+    let mut ch = Command::new(exe).args(["c20-child", "-"]).stdin(Stdio::piped()).stdout(Stdio::piped()).stderr(Stdio::null()).spawn().ok()?;
+    let input = json!({"pool": pool, "seq": seq}).to_string();
+    ch.stdin.take()?.write_all(input.as_bytes()).ok()?;
+    let out = ch.wait_with_output().ok()?;
+    let v: serde_json::Value = serde_json::from_slice(&out.stdout).ok()?;
+    Some(v["hashes"].as_array()?.iter().map(|x| x.as_str().unwrap_or("").to_string()).collect())
+}
+
+/// Order independence across processes: the same expansions in two different orders, each in a
+/// fresh process (so that state set by the first expansion of a process shows), must give the same
+/// output per (input, configuration).
+pub fn order_independent(h: &History) -> Result<(), String> {
+    let fwd = h.seq.clone();
+    let mut rev = h.seq.clone();
+    rev.reverse();
+    let (Some(a), Some(b)) = (run_child(&h.pool, &fwd), run_child(&h.pool, &rev)) else {
+        return Ok(()); // infrastructure hiccup: no verdict
+    };
+    let mut first: HashMap<(usize, usize), &String> = HashMap::new();
+    for (k, key) in fwd.iter().enumerate() {
+        first.entry(*key).or_insert(&a[k]);
+    }
+    for (k, key) in rev.iter().enumerate() {
+        if let Some(x) = first.get(key) {
+            if **x != b[k] {
+                return Err(format!("the expansion of input {} (config {:?}) depends on which other invocations were expanded before it in the process (forward order vs reverse order, each in a fresh process)", key.0, CONFIGS[key.1]));
+            }
+        }
+    }
+    Ok(())
+}
+
 pub fn run(tier: &str, seed: u64) -> i32 {
     let t0 = std::time::Instant::now();
     let mut ev = Evidence::new("C20", tier, seed, "exploration");
-    ev.rule = "histories: a pool of 2-7 generated inputs (structures over all operators with adversarial operands, and wide programs with up to 11 branches x 3 steps, each with 0-2 options incl. explicit futures_crate_path / custom_joiner) x the 8 configurations; a sequence of 2-39 expansions over the pool in random order with repetition, executed sequentially on one thread and then again concurrently on 1-8 fresh threads started behind a barrier (each thread lexes its own token stream; only strings cross threads). Oracle: table (input, config) -> first output string; every later output, sequential or concurrent, is byte-identical (syn errors and configuration panics are outputs too). Non-trivial = some (input, config) is expanded at least twice with a different input in between, or the history runs on >= 2 threads; distinct by history content".to_string();
+    ev.rule = "histories: a pool of 2-7 generated inputs (structures over all operators with adversarial operands, and wide programs with up to 11 branches x 3 steps, each with 0-2 options incl. explicit futures_crate_path / custom_joiner) x the 8 configurations; a sequence of 2-39 expansions over the pool in random order with repetition, executed sequentially on one thread and then again concurrently on 1-8 fresh threads started behind a barrier (each thread lexes its own token stream; only strings cross threads). Oracle: table (input, config) -> first output string; every later output, sequential or concurrent, is byte-identical (syn errors and configuration panics are outputs too); every fourth history is additionally expanded in two fresh child processes, once in the given and once in reverse order, and each (input, config) must give the same output in both - state that the first expansion of a process leaves behind would show there. Non-trivial = some (input, config) is expanded at least twice with a different input in between, or the history runs on >= 2 threads; distinct by history content".to_string();
     ev.assumptions = vec!["token-for-token identity is compared on the string form of the output token stream".into()];
     let cases: u32 = if tier == "quick" { 2_500 } else { 40_000 };
     let counts = RefCell::new((0u64, 0u64, 0u64, BTreeMap::<String, u64>::new(), Vec::<serde_json::Value>::new(), HashSet::<u64>::new()));
@@ -189,7 +245,19 @@ pub fn run(tier: &str, seed: u64) -> i32 {
         run_history(&h).map_err(|d| {
             *stop.borrow_mut() = true;
             TestCaseError::fail(d)
-        })
+        })?;
+        // every fourth history also in two fresh processes, forward and reverse
+        let k = counts.borrow().0;
+        if k % 4 == 0 {
+            if !*stop.borrow() {
+                *counts.borrow_mut().3.entry("two_fresh_processes_forward_reverse".into()).or_default() += 1;
+            }
+            order_independent(&h).map_err(|d| {
+                *stop.borrow_mut() = true;
+                TestCaseError::fail(d)
+            })?;
+        }
+        Ok(())
     });
     let c = counts.into_inner();
     ev.evaluations = c.0;
@@ -224,6 +292,10 @@ pub fn replay(v: &serde_json::Value) -> i32 {
             println!("replay: violation reproduced: {}", d);
             return 1;
         }
+    }
+    if let Err(d) = order_independent(&h) {
+        println!("replay: violation reproduced: {}", d);
+        return 1;
     }
     println!("replay: all expansions identical on the current tree");
     0
